@@ -32,6 +32,11 @@ def _jobs(tier, seed):
         if i % 3 == 0:
             rules = sugar.strip_none_repetitions(sugar.add_groups(rules, r, 0.5))
         jobs.append({"rules": rules, "greedy": False, "origin": "det" if i % 4 else "rand", "nsent": p["nsent"], "seed": r.randrange(1 << 30)})
+        if i % 5 == 2:
+            # separators that are RULES (C13's quantifier: "separators that are strings or rules")
+            rs = sugar.rule_separator_variant(rules)
+            if rs is not None:
+                jobs.append({"rules": rs, "greedy": False, "origin": "det", "nsent": p["nsent"], "seed": 7000 + i})
         if i % 5 == 1:
             # the same rules over inline punctuation string terminals ("+"*, "-"?): helper rules named after the string itself
             jobs.append({"rules": sugar.inline_variant(rules), "greedy": False, "inline": True, "origin": "det", "nsent": p["nsent"], "seed": 5000 + i})
